@@ -5,11 +5,11 @@
 EXTENDS SemAbs, VTrace
 VARIABLE op        \* op[h]: operation in flight through handle h: [st, name, n, init, create]
 tv == <<svars, op, l>>
-NoOp == [st |-> "idle", name |-> "", n |-> 0, init |-> 0, create |-> 0]
+NoOp == [st |-> "idle", name |-> "", n |-> 0, init |-> 0, create |-> 0, inj |-> 0]
 TInit == SInit /\ op = [h \in Hids |-> NoOp] /\ CursorInit
 ProcHids(p) == {h \in Hids : h \div 10 = p}
 TrCall == /\ IsEvent("call") /\ Consume /\ op[Ev.h].st = "idle"
-          /\ op' = [op EXCEPT ![Ev.h] = [st |-> "called", name |-> Ev.op, n |-> Ev.a, init |-> Ev.b, create |-> Ev.create]]
+          /\ op' = [op EXCEPT ![Ev.h] = [st |-> "called", name |-> Ev.op, n |-> Ev.a, init |-> Ev.b, create |-> Ev.create, inj |-> IF HasField(Ev, "inj") THEN Ev.inj ELSE 0]]
           /\ IF Ev.op = "acq" THEN SAcqCall(Ev.h)
              ELSE IF Ev.op = "semnew" /\ Ev.create = 1 THEN SCreateCall(Ev.h, Ev.a, Ev.b)
              ELSE UNCHANGED svars
@@ -19,6 +19,10 @@ LinNewOpen(h) == /\ op[h].st = "called" /\ op[h].name = "semnew" /\ op[h].create
 LinNewOpenFail(h) == /\ op[h].st = "called" /\ op[h].name = "semnew" /\ op[h].create = 0
                      /\ \E k \in Hids : k # h /\ op[k].st # "idle"
                      /\ op' = [op EXCEPT ![h].st = "failed"] /\ UNCHANGED svars
+(* the environment refused a resource inside an OPEN-mode call (a system call was made to fail by the harness): the call may fail, and then
+   it has changed nothing - an existing semaphore of that name is still there with its units *)
+LinInjFail(h) == /\ op[h].st = "called" /\ op[h].name = "semnew" /\ op[h].create = 0 /\ op[h].inj = 1
+                 /\ op' = [op EXCEPT ![h].st = "failed"] /\ UNCHANGED svars
 LinCreateReset(h) == op[h].st = "called" /\ op[h].name = "semnew" /\ op[h].create = 1 /\ SCreateReset(h) /\ UNCHANGED op
 LinCreate(h) == /\ op[h].st = "called" /\ op[h].name = "semnew" /\ op[h].create = 1
                 /\ SCreateLin(h) /\ op' = [op EXCEPT ![h].st = "done"]
@@ -30,7 +34,7 @@ LinVal(h) == op[h].st = "called" /\ op[h].name = "val" /\ op' = [op EXCEPT ![h].
 (* a call through a handle that does not exist (its open failed, or its process was killed) fails and changes nothing *)
 LinNoHandle(h) == /\ op[h].st = "called" /\ op[h].name \in {"rel", "own", "free", "val"} /\ hd[h].g = 0
                   /\ op' = [op EXCEPT ![h].st = "failed"] /\ UNCHANGED svars
-DoLin == /\ \E h \in Hids : LinNoHandle(h) \/ LinNewOpen(h) \/ LinNewOpenFail(h) \/ LinCreateReset(h) \/ LinCreate(h) \/ LinAcq(h)
+DoLin == /\ \E h \in Hids : LinNoHandle(h) \/ LinInjFail(h) \/ LinNewOpen(h) \/ LinNewOpenFail(h) \/ LinCreateReset(h) \/ LinCreate(h) \/ LinAcq(h)
                             \/ LinRel(h) \/ LinOwn(h) \/ LinFree(h) \/ LinVal(h)
          /\ UNCHANGED l
 TrRet == /\ IsEvent("ret") /\ Consume
